@@ -205,7 +205,7 @@ def run(sc):
                     if not bool(t) and not (t.value is False or t.value == 0 or t.value == 0.0) or t.error is not None:
                         hits.hit("C18", "slc.value", f"read {a['text']!r} failed: {t!r}; PCCC: {slc.pccc_log[-1:] and {x: slc.pccc_log[-1].get(x) for x in ('file', 'ftype', 'elem', 'sub', 'size', 'sts', 'why')}}",
                                  field="failed", boundary=boundary(ast), **f)
-                    elif not values_equal(t.value, want):
+                    elif not strict_equal(t.value, want):
                         hits.hit("C18", "slc.value", f"read {a['text']!r} returned {t.value!r}, data table holds {want!r}",
                                  field="value", boundary=boundary(ast), **f)
                     elif t.tag != base and t.tag.upper() != base.upper():
@@ -332,7 +332,27 @@ def gen_table(r):
         else:
             data = bytes(r.randrange(256) for _ in range(ELEM_SIZE[t] * cnt))
         table[str(n)] = {"type": t, "data": data.hex()}
+    # plenty of words at the ends of the range: a cleared timer, a preset of 0, a full counter
+    for f in table.values():
+        if f["type"] == "F" or r.random() < 0.3:
+            continue
+        b = bytearray(bytes.fromhex(f["data"]))
+        for i in range(0, len(b) - 1, 2):
+            if r.random() < 0.2:
+                b[i:i + 2] = struct.pack("<H", r.choice((0, 0, 0, 1, 0x7FFF, 0x8000, 0xFFFF)))
+        f["data"] = bytes(b).hex()
     return table, iow
+
+
+def strict_equal(got, want):
+    """values_equal, and a number is not a truth value: 0 from a word is not False, a bit is not 1"""
+    if not values_equal(got, want):
+        return False
+    if isinstance(want, (list, tuple)) and isinstance(got, (list, tuple)):
+        return all(strict_equal(g, w) for g, w in zip(got, want))
+    if isinstance(want, bool) != isinstance(got, bool) and isinstance(want, (bool, int)) and isinstance(got, (bool, int)):
+        return False
+    return True
 
 
 def gen_addr(r, table, iow, for_write):
